@@ -143,6 +143,17 @@ def check_layers(ctx, env0, label, idx):
                 ctx.phi_fail("truncate_is_inner_or_limit", case, key="layer-truncate:" + names[i])
             if d["w"] == "timeLimit" and cnt_next != [counters[0] + 1]:
                 ctx.phi_fail("timelimit_counter_increments", case)
+            info_w = wrapped.transition_info(ws, a, nxt_w)
+            info_in = inner.transition_info(is_, a_in, nxt_in)
+            if not (sorted(info_w) == sorted(info_in) and all(
+                    ctx.close(np.asarray(info_w[k_], np.float64), np.asarray(info_in[k_], np.float64), 4.0)
+                    for k_ in info_in)):
+                ctx.phi_fail("transition_info_is_inner_info_of_mapped_action",
+                             {**case, "wrapped_info": {k_: np.asarray(v) for k_, v in info_w.items()},
+                              "inner_info": {k_: np.asarray(v) for k_, v in info_in.items()}},
+                             key="layer-info:" + names[i])
+            if sorted(wrapped.state_info(ws)) != sorted(inner.state_info(is_)):
+                ctx.phi_fail("state_info_passes_through", case, key="layer-state-info:" + names[i])
             if (mask_in is None) != (mask_w is None) or (
                     mask_in is not None and not np.array_equal(np.asarray(mask_in), np.asarray(mask_w))):
                 ctx.phi_fail("action_mask_passes_through", case)
